@@ -31,9 +31,11 @@ pub enum Kind {
     SwitchingKey,
     AutomorphismKey,
     TensorKey,
+    GglweToGgswKey,
+    BlindRotationKey,
 }
 
-pub const KINDS: [Kind; 6] = [Kind::Glwe, Kind::Gglwe, Kind::Ggsw, Kind::SwitchingKey, Kind::AutomorphismKey, Kind::TensorKey];
+pub const KINDS: [Kind; 8] = [Kind::Glwe, Kind::Gglwe, Kind::Ggsw, Kind::SwitchingKey, Kind::AutomorphismKey, Kind::TensorKey, Kind::GglweToGgswKey, Kind::BlindRotationKey];
 
 impl Kind {
     pub fn name(&self) -> &'static str {
@@ -44,6 +46,8 @@ impl Kind {
             Kind::SwitchingKey => "glwe_switching_key",
             Kind::AutomorphismKey => "glwe_automorphism_key",
             Kind::TensorKey => "glwe_tensor_key",
+            Kind::GglweToGgswKey => "gglwe_to_ggsw_key",
+            Kind::BlindRotationKey => "blind_rotation_key",
         }
     }
 }
@@ -75,11 +79,14 @@ impl EncP {
         let n = 1usize << self.log_n;
         self.rank_in = self.rank_in.clamp(1, 3);
         self.rank_out = self.rank_out.clamp(1, 3);
-        if matches!(self.kind, Kind::Ggsw | Kind::AutomorphismKey | Kind::TensorKey | Kind::Glwe) {
+        if matches!(self.kind, Kind::Ggsw | Kind::AutomorphismKey | Kind::TensorKey | Kind::Glwe | Kind::GglweToGgswKey | Kind::BlindRotationKey) {
             self.rank_in = self.rank_out;
         }
         self.dnum = self.dnum.clamp(1, 3);
         self.dsize = self.dsize.clamp(1, 2);
+        if self.kind == Kind::BlindRotationKey {
+            self.dsize = 1;
+        }
         self.dist = self.dist.adapt(n);
         if self.dist == Dist::Zero {
             self.dist = Dist::TernaryProb(8);
@@ -90,7 +97,7 @@ impl EncP {
             _ => n as u64,
         };
         // tensor keys multiply two secrets: |s_i s_j|_1 <= l1^2
-        let l1eff = if self.kind == Kind::TensorKey { l1max * l1max } else { l1max };
+        let l1eff = if matches!(self.kind, Kind::TensorKey | Kind::GglweToGgswKey) { l1max * l1max } else { l1max };
         let maxb = if fft { fft_max_base2k(self.log_n, l1eff.max(1)) } else { 40 };
         self.base2k = self.base2k.clamp(2, maxb.clamp(2, 40));
         self.krem %= self.base2k;
@@ -102,6 +109,10 @@ impl EncP {
     }
     pub fn k(&self) -> usize {
         self.size() * self.base2k as usize - self.krem as usize
+    }
+    /// LWE dimension of the blind-rotation key kind (derived from the Galois field of the case: 1..=6)
+    pub fn n_lwe(&self) -> usize {
+        1 + self.gal.rem_euclid(6) as usize
     }
     pub fn noise_infos(&self) -> NoiseInfos {
         let (s, b) = NOISES[self.noise as usize];
@@ -339,6 +350,111 @@ pub fn build<B: FullBackend>(m: &Module<B>, p: &EncP, compressed: bool, via_serd
             for row in 0..p.dnum as usize {
                 for col in 0..pairs {
                     cells.push(own(g.at(row, col).data()));
+                }
+            }
+        }
+        Kind::GglweToGgswKey => {
+            use poulpy_core::layouts::compressed::{GGLWECompressedSeed, GGLWEToGGSWKeyCompressed};
+            use poulpy_core::layouts::{GGLWEToGGSWKey, GGLWEToGGSWKeyLayout};
+            let lay = GGLWEToGGSWKeyLayout { n: nd, base2k: bb, k: kk, rank: ro, dnum, dsize };
+            let enc = EncryptionLayout::new(lay, ni).unwrap();
+            let mut ct = GGLWEToGGSWKey::alloc_from_infos(&lay);
+            let r = p.rank_out as usize;
+            if compressed {
+                let mut c = GGLWEToGGSWKeyCompressed::alloc_from_infos(&lay);
+                poulpy_core::GGLWEToGGSWKeyCompressedEncryptSk::gglwe_to_ggsw_key_encrypt_sk(m, &mut c, &sk_out, seed_xa, &enc, &mut xe, scratch.borrow());
+                c.write_to(&mut bytes).unwrap();
+                if via_serde {
+                    use poulpy_hal::layouts::ReaderFrom;
+                    let mut c2 = GGLWEToGGSWKeyCompressed::alloc_from_infos(&lay);
+                    c2.read_from(&mut &bytes[..]).unwrap();
+                    c = c2;
+                }
+                for i in 0..r {
+                    let s = c.at(i).seed().clone();
+                    for row in 0..p.dnum as usize {
+                        for col in 0..r {
+                            seeds.push(s[r * row + col]);
+                        }
+                    }
+                    m.decompress_gglwe(ct.at_mut(i), c.at(i));
+                }
+                // the key-level entry point must agree with the per-element decompression
+                let mut ct2 = GGLWEToGGSWKey::alloc_from_infos(&lay);
+                poulpy_core::layouts::compressed::GGLWEToGGSWKeyDecompress::decompress_gglwe_to_ggsw_key(m, &mut ct2, &c);
+                let (mut b1, mut b2) = (vec![], vec![]);
+                ct.write_to(&mut b1).unwrap();
+                ct2.write_to(&mut b2).unwrap();
+                assert!(b1 == b2, "decompress_gglwe_to_ggsw_key differs from element-wise decompress_gglwe");
+            } else {
+                poulpy_core::GGLWEToGGSWKeyEncryptSk::gglwe_to_ggsw_key_encrypt_sk(m, &mut ct, &sk_out, &enc, &mut xe, &mut xa, scratch.borrow());
+            }
+            for i in 0..r {
+                let g = ct.at(i);
+                for row in 0..p.dnum as usize {
+                    for col in 0..r {
+                        cells.push(own(g.at(row, col).data()));
+                    }
+                }
+            }
+        }
+        Kind::BlindRotationKey => {
+            use poulpy_bin_fhe::blind_rotation::{BlindRotationKey, BlindRotationKeyCompressed, BlindRotationKeyCompressedEncryptSk, BlindRotationKeyEncryptSk, BlindRotationKeyLayout, CGGI};
+            use poulpy_core::layouts::LWESecret;
+            use poulpy_hal::layouts::ReaderFrom;
+            let n_lwe = p.n_lwe().min(n);
+            let lay = BlindRotationKeyLayout { n_glwe: nd, n_lwe: Degree(n_lwe as u32), base2k: bb, k: kk, dnum, rank: ro };
+            let enc = EncryptionLayout::new(lay, ni).unwrap();
+            let mut sk_lwe = LWESecret::alloc(Degree(n_lwe as u32));
+            match p.seed_sk % 3 {
+                0 => sk_lwe.fill_binary_block(1, &mut Source::new(seed32(p.seed_sk, 3))),
+                1 => sk_lwe.fill_binary_prob(0.5, &mut Source::new(seed32(p.seed_sk, 3))),
+                _ => sk_lwe.fill_binary_hw((n_lwe / 2).max(1), &mut Source::new(seed32(p.seed_sk, 3))),
+            }
+            let cols = p.rank_out as usize + 1;
+            // the key types keep their GGSWs private: they are read back through the public serialisation
+            if compressed {
+                let mut key = BlindRotationKeyCompressed::<Vec<u8>, CGGI>::alloc(&lay);
+                m.blind_rotation_key_compressed_encrypt_sk(&mut key, &skp, &sk_lwe, seed_xa, &enc, &mut xe, scratch.borrow());
+                key.write_to(&mut bytes).unwrap();
+                if via_serde {
+                    let mut k2 = BlindRotationKeyCompressed::<Vec<u8>, CGGI>::alloc(&lay);
+                    k2.read_from(&mut &bytes[..]).unwrap();
+                    let mut again = vec![];
+                    k2.write_to(&mut again).unwrap();
+                    bytes = again;
+                }
+                let mut probe = vec![];
+                GGSWCompressed::alloc_from_infos(&lay).write_to(&mut probe).unwrap();
+                let mut cur = &bytes[bytes.len() - n_lwe * probe.len()..];
+                for _ in 0..n_lwe {
+                    let mut g = GGSWCompressed::alloc_from_infos(&lay);
+                    g.read_from(&mut cur).unwrap();
+                    let s = g.seed().clone();
+                    let mut ct = GGSW::alloc_from_infos(&lay);
+                    m.decompress_ggsw(&mut ct, &g);
+                    for row in 0..p.dnum as usize {
+                        for col in 0..cols {
+                            seeds.push(s[row * cols + col]);
+                            cells.push(own(ct.at(row, col).data()));
+                        }
+                    }
+                }
+            } else {
+                let mut key = BlindRotationKey::<Vec<u8>, CGGI>::alloc(&lay);
+                m.blind_rotation_key_encrypt_sk(&mut key, &skp, &sk_lwe, &enc, &mut xe, &mut xa, scratch.borrow());
+                key.write_to(&mut bytes).unwrap();
+                let mut probe = vec![];
+                GGSW::alloc_from_infos(&lay).write_to(&mut probe).unwrap();
+                let mut cur = &bytes[bytes.len() - n_lwe * probe.len()..];
+                for _ in 0..n_lwe {
+                    let mut ct = GGSW::alloc_from_infos(&lay);
+                    ct.read_from(&mut cur).unwrap();
+                    for row in 0..p.dnum as usize {
+                        for col in 0..cols {
+                            cells.push(own(ct.at(row, col).data()));
+                        }
+                    }
                 }
             }
         }
